@@ -209,6 +209,9 @@ func runC08(e *Env) error {
 	if err := c08NumbersAsText(e); err != nil {
 		return err
 	}
+	if err := c08WordStrings(e); err != nil {
+		return err
+	}
 	if r.Full() {
 		return nil
 	}
